@@ -24,6 +24,7 @@ PROP = {
             "QUIC first byte x version x cid lengths x token x declared/actual length, protected Initials with CRYPTO frame offsets/lengths at the 256 KiB and 2^62 edges, "
             "hostile ClientHello extension bodies; Gecko frame fields incl. pad length past the end and per-source/global reassembly floods; punch packets near-valid, "
             "STUN attributes with lying lengths/families; speed-test request types/sizes vs. bytes really sent. "
+            "Completed reassemblies at the legal maxima (UDP: 255 fragments x full datagrams ~300 KB; Gecko: 2-8 chunks x 2035 bytes up to 16 KiB; CRYPTO: a 60 KB hello in 1-6 frames ending at / one past the 256 KiB cap); server session closes (cleanup, idle sweep, socket read error, send error) placed inside parked CheckUDP / WriteTo / SendMessage calls. " 
             "Non-trivial = the input got past the first length check of its target (classified by the outcome path that returned); "
             "distinct = (target, outcome class, size bucket / field tuple / history).",
     "assumptions": [
